@@ -80,6 +80,7 @@ def run(ctx):
     r = repo.resolve_method(GC, "GCRepositoryPackCollection", "_check_new_inventories")
     if r is not None and r[0] == GC:
         c06.check_presence_sets(ctx, r[2], f"{GC}:GCRepositoryPackCollection._check_new_inventories")
+        c06.check_interesting_key_sets(ctx, r[2], f"{GC}:GCRepositoryPackCollection._check_new_inventories")
         names = {call_attr(c) for c in calls_in(r[2])}
         ctx.check("R3-gc-check-no-fallbacks", f"{GC}:GCRepositoryPackCollection._check_new_inventories", "without_fallbacks" in names and not any("_fallback_repositories" in norm(n) for n in walk_own(r[2])), "the completeness check looks only at this repository's own indices (no fallback lookups)")
     fnc, gc, wherec = fn_cfg(ctx, PR, "RepositoryPackCollection._commit_write_group")
